@@ -150,6 +150,15 @@ func call(car string, v reflect.Value, rules string) func() error {
 		p := reflect.New(st)
 		p.Elem().Field(0).Set(v)
 		return func() error { return valid.Struct(p.Interface(), valid.RM{"F": rules}) }
+	case "struct-tag-after-override":
+		// the tagged type again, right after a call that replaced the field's rules for that call only
+		st := carrier.TagType(v.Type(), rules)
+		p := reflect.New(st)
+		p.Elem().Field(0).Set(v)
+		return func() error {
+			_ = valid.Struct(p.Interface(), valid.RM{"F": "le=-7|zz,in=(zz)|zz"})
+			return valid.Struct(p.Interface())
+		}
 	case "struct-tagged+rm":
 		// the field declares optional rules in its tag; the per-call rule set replaces them for this call
 		st := carrier.TagType(v.Type(), "to=2~10,phone")
@@ -171,7 +180,11 @@ func call(car string, v reflect.Value, rules string) func() error {
 	panic(car)
 }
 
-func check(c *runner.Ctx, car, vname, rules, form string, v reflect.Value, empty, trueZero bool, f func() error) {
+func check(c *runner.Ctx, car, vname, rules, form string, v reflect.Value, empty, trueZero bool, f func() error, wantReqOpt ...int) {
+	wantReq := 1
+	if len(wantReqOpt) > 0 {
+		wantReq = wantReqOpt[0]
+	}
 	o := observe(f)
 	c.Done(empty, 1)
 	det := func() map[string]interface{} {
@@ -192,12 +205,12 @@ func check(c *runner.Ctx, car, vname, rules, form string, v reflect.Value, empty
 	case empty && hasReq:
 		// exactly one clause: the required one (other rules skip the empty value) — asserted for true zero values;
 		// for empty-but-not-zero collections only the presence of the required clause is asserted.
-		if nreq != 1 {
+		if nreq != wantReq {
 			c.Outcome("missing-required")
 			c.Violation(sigBase+"/empty-value-not-reported-as-required", det())
 			return
 		}
-		if trueZero && len(o.cls) != 1 {
+		if trueZero && len(o.cls) != wantReq {
 			c.Outcome("extra-clause-on-zero")
 			c.Violation(sigBase+"/zero-value-evaluated-by-other-rule", det())
 			return
@@ -249,7 +262,7 @@ func run(c *runner.Ctx) {
 				cars = append(cars, "map", "map-iface")
 			}
 			if carrier.TagOK(rf.rules) {
-				cars = append(cars, "struct-tag")
+				cars = append(cars, "struct-tag", "struct-tag-after-override")
 			}
 			if tv.varOK {
 				cars = append(cars, "var")
@@ -280,26 +293,34 @@ func run(c *runner.Ctx) {
 			name  string
 			f     func() error
 			empty bool
+			n     int // number of required clauses expected (0 = 1): one per map of a slice that lacks / empties the key
 		}
 		cases := []mc{
-			{"map-missing-key", func() error { return valid.Map(map[string]string{"other": "x"}, rm) }, true},
-			{"map-missing-key-int", func() error { return valid.Map(map[string]int{"other": 1}, rm) }, true},
-			{"slicemap-missing-key", func() error { return valid.Map([]map[string]string{{"other": "x"}}, rm) }, true},
-			{"url-missing-param", func() error { return valid.Url("http://h/p?other=x", rm) }, true},
-			{"url-missing-param-first", func() error { return valid.Url("http://h/p?other=x&z=1", rm) }, true},
-			{"url-no-query", func() error { return valid.Url("http://h/p", rm) }, true},
-			{"url-empty-query", func() error { return valid.Url("http://h/p?", rm) }, true},
-			{"url-present-empty", func() error { return valid.Url("http://h/p?k=", rm) }, true},
-			{"url-present-empty-mid", func() error { return valid.Url("http://h/p?a=1&k=&b=2", rm) }, true},
-			{"url-bare-key", func() error { return valid.Url("http://h/p?k", rm) }, true},
-			{"url-bare-key-after-value", func() error { return valid.Url("http://h/p?other=tom&k", rm) }, true},
-			{"url-bare-key-before-value", func() error { return valid.Url("http://h/p?k&other=tom", rm) }, true},
-			{"url-present", func() error { return valid.Url("http://h/p?k=x", rm) }, false},
-			{"url-present-last", func() error { return valid.Url("http://h/p?other=&k=x", rm) }, false},
-			{"url-present-after-bare", func() error { return valid.Url("http://h/p?other&k=x", rm) }, false},
+			{"map-missing-key", func() error { return valid.Map(map[string]string{"other": "x"}, rm) }, true, 0},
+			{"map-missing-key-int", func() error { return valid.Map(map[string]int{"other": 1}, rm) }, true, 0},
+			{"slicemap-missing-key", func() error { return valid.Map([]map[string]string{{"other": "x"}}, rm) }, true, 0},
+			{"slicemap-empty-then-missing-key", func() error { return valid.Map([]map[string]string{{"k": ""}, {"other": "x"}}, rm) }, true, 2},
+			{"slicemap-missing-then-empty-key", func() error { return valid.Map([]map[string]string{{"other": "x"}, {"k": ""}}, rm) }, true, 2},
+			{"slicemap-empty-missing-missing", func() error { return valid.Map([]map[string]int{{"k": 0}, {}, {"z": 1}}, rm) }, true, 3},
+			{"url-missing-param", func() error { return valid.Url("http://h/p?other=x", rm) }, true, 0},
+			{"url-missing-param-first", func() error { return valid.Url("http://h/p?other=x&z=1", rm) }, true, 0},
+			{"url-no-query", func() error { return valid.Url("http://h/p", rm) }, true, 0},
+			{"url-empty-query", func() error { return valid.Url("http://h/p?", rm) }, true, 0},
+			{"url-present-empty", func() error { return valid.Url("http://h/p?k=", rm) }, true, 0},
+			{"url-present-empty-mid", func() error { return valid.Url("http://h/p?a=1&k=&b=2", rm) }, true, 0},
+			{"url-bare-key", func() error { return valid.Url("http://h/p?k", rm) }, true, 0},
+			{"url-bare-key-after-value", func() error { return valid.Url("http://h/p?other=tom&k", rm) }, true, 0},
+			{"url-bare-key-before-value", func() error { return valid.Url("http://h/p?k&other=tom", rm) }, true, 0},
+			{"url-present", func() error { return valid.Url("http://h/p?k=x", rm) }, false, 0},
+			{"url-present-last", func() error { return valid.Url("http://h/p?other=&k=x", rm) }, false, 0},
+			{"url-present-after-bare", func() error { return valid.Url("http://h/p?other&k=x", rm) }, false, 0},
 		}
 		for _, m := range cases {
-			check(c, strings.SplitN(m.name, "-", 2)[0]+"-entry", m.name, rf.rules, rf.form, reflect.Value{}, m.empty, true, m.f)
+			n := m.n
+			if n == 0 {
+				n = 1
+			}
+			check(c, strings.SplitN(m.name, "-", 2)[0]+"-entry", m.name, rf.rules, rf.form, reflect.Value{}, m.empty, true, m.f, n)
 		}
 	}
 }
@@ -309,8 +330,8 @@ func main() {
 		Property:  "C03",
 		Technique: "complete product of supported field types x emptiness x rule forms x entry points on the real code vs emptiness model",
 		Rule: "every value of a 58-entry catalogue (strings, bool, all numeric kinds, slices nil/empty/non-empty, arrays, maps, structs, pointers to structs and scalars, multi-level pointers) x " +
-			"{required alone (3 message forms), each of 31 other rules alone, required before it, required after it} x carriers {struct tag, struct per-call rule on an untagged field, per-call rule replacing optional tag rules, Var, map[string]T, map[string]interface{}} " +
-			"plus map/URL inputs with missing, bare and empty entries; evaluation = one call; non-trivial = calls on an empty value",
+			"{required alone (3 message forms), each of 31 other rules alone, required before it, required after it} x carriers {struct tag, struct per-call rule on an untagged field, per-call rule replacing optional tag rules, the tagged type right after a call that overrode its rules, Var, map[string]T, map[string]interface{}} " +
+			"plus map/URL inputs with missing, bare and empty entries (incl. slices of maps whose elements lack / empty the key in every order); evaluation = one call; non-trivial = calls on an empty value",
 		Assumptions: []string{"empty-but-non-nil slices/maps are checked for required only (DESIGN §7)", "non-nil pointers to zero scalars are non-empty (the pointer is supplied)"},
 		Run:         run,
 	})
